@@ -170,8 +170,9 @@ func runC19(c *core.Ctx) {
 	} else {
 		// the comparators: the function values SortOrdered hands to Sort (closures, named functions, ...)
 		type cmpUse struct {
-			cl *ssa.Function
-			at ssa.Instruction
+			cl   *ssa.Function
+			at   ssa.Instruction
+			edge []core.Cond // facts of the edge over which the comparator was selected (a phi of function values)
 		}
 		var uses []cmpUse
 		core.InstrsGroup(p, so, func(_ *ssa.Function, ins ssa.Instruction) {
@@ -182,8 +183,13 @@ func runC19(c *core.Ctx) {
 					// `comparator := asc ? f : g` then one call of Sort
 					for i, e := range phi.Edges {
 						if fv := core.ResolveFuncValue(p, e); fv != nil {
-							last := phi.Block().Preds[i].Instrs[len(phi.Block().Preds[i].Instrs)-1]
-							uses = append(uses, cmpUse{fv.Fn, last})
+							pred := phi.Block().Preds[i]
+							last := pred.Instrs[len(pred.Instrs)-1]
+							var edge []core.Cond
+							if iff, isIf := last.(*ssa.If); isIf && len(pred.Succs) == 2 && pred.Succs[0] != pred.Succs[1] {
+								edge = core.ExpandCond(core.Cond{V: iff.Cond, True: pred.Succs[0] == phi.Block(), If: iff})
+							}
+							uses = append(uses, cmpUse{fv.Fn, last, edge})
 						}
 					}
 					return
@@ -191,7 +197,7 @@ func runC19(c *core.Ctx) {
 				cands = append(cands, arg)
 				for _, a := range cands {
 					if fv := core.ResolveFuncValue(p, a); fv != nil {
-						uses = append(uses, cmpUse{fv.Fn, ins})
+						uses = append(uses, cmpUse{fv.Fn, ins, nil})
 					}
 				}
 			}
@@ -204,7 +210,7 @@ func runC19(c *core.Ctx) {
 			mc := u.at
 			asc, known := false, false
 			if mc != nil {
-				for _, cnd := range core.EdgeFacts(mc.Block()) {
+				for _, cnd := range append(core.EdgeFacts(mc.Block()), u.edge...) {
 					n := core.Normalize(cnd)
 					if core.Resolve(n.V) == ssa.Value(so.Params[0]) {
 						asc, known = n.True, true
